@@ -361,10 +361,13 @@ def run(ck):
                 real_rejects = False
                 violation('C15: lbzip2 -d accepted a file with a flipped '
                           'stored CRC bit', replay)
-            code = rr.split(' ', 1)[1] if rr.startswith('err ') else \
-                rr.split(' ', 1)[0]
-            lab = {'15': 'block CRC mismatch',
-                   '16': 'stream CRC mismatch'}.get(code, 'other: ' + code[:40])
+            if rr.startswith('err '):
+                code = rr[4:]
+                lab = {'15': 'block CRC mismatch',
+                       '16': 'stream CRC mismatch'}.get(
+                           code, 'other: ' + code[:40])
+            else:
+                lab = 'ACCEPTED' if rr.startswith('ok ') else rr[:40]
             dd = msgs.setdefault(kind, {}).setdefault('n%d' % n, {})
             dd[lab] = dd.get(lab, 0) + 1
         what = '%s bit %d of %s CRC %d (%s) of %s = %s' % (
